@@ -342,6 +342,7 @@ func (x *Exec) runBlock(fr *Frame, b *ssa.BasicBlock, idx int, st *State, k cont
 				if t, ok := rv.(*Term); ok {
 					rv = nameBig(t)
 				}
+				x.trackPropagates(fr, st2, call.Common(), rets)
 				fr2.regs[call] = rv
 				x.runBlock(fr2, b, i+1, st2, k)
 			})
@@ -986,4 +987,60 @@ func (x *Exec) mapGet(st *State, mt *types.Map, m *Term, k Value) (Value, *Term)
 func shortFn(fn *ssa.Function) string {
 	s := fn.String()
 	return strings.ReplaceAll(shortType(s), "github.com/hack-pad/", "")
+}
+
+
+// calleeNames: the names a `propagates` clause may use for the function called here.
+func calleeNames(cc *ssa.CallCommon) []string {
+	if cc.IsInvoke() {
+		return []string{cc.Method.Name()}
+	}
+	if fn := cc.StaticCallee(); fn != nil {
+		out := []string{fn.Name()}
+		if r := fn.Signature.Recv(); r != nil {
+			out = append(out, strings.TrimPrefix(recvString(r.Type()), "*")+"."+fn.Name())
+		}
+		return out
+	}
+	return []string{cc.Value.Name()}
+}
+
+func failedKey(callee string) string { return "failed|" + callee }
+
+// trackPropagates maintains the ghost flag failed(callee): some call of callee made by the function under
+// verification has returned a non-nil error that its `propagates` clause does not excuse.
+func (x *Exec) trackPropagates(fr *Frame, st *State, cc *ssa.CallCommon, rets []Value) {
+	if x.c == nil || len(x.c.Propagates) == 0 || fr.fn != x.fn || len(rets) == 0 {
+		return
+	}
+	ev, ok := rets[len(rets)-1].(IfaceV)
+	if !ok {
+		return
+	}
+	names := calleeNames(cc)
+	for _, p := range x.c.Propagates {
+		hit := false
+		for _, n := range names {
+			if n == p.Label {
+				hit = true
+			}
+		}
+		if !hit {
+			continue
+		}
+		cond := Not(And(Eq(ev.Tag, IntLit(0)), Eq(ev.Val, IntLit(0))))
+		if p.Expr != nil {
+			env := &Env{eng: x.eng, st: st, vars: map[string]tv{}, pkg: x.eng.typesPkg(x.c.Pkg), old: heapSnap{}, oldTop: st.top0}
+			for n, v := range x.params {
+				env.vars[n] = v
+			}
+			env.vars["e"] = tv{ev, types.Universe.Lookup("error").Type()}
+			cond = And(cond, Not(x.evalClause(env, x.c, "propagates "+p.Label+" unless", p.Expr)))
+		}
+		cur, _ := st.ghostV[failedKey(p.Label)].(*Term)
+		if cur == nil {
+			cur = False
+		}
+		st.ghostV[failedKey(p.Label)] = Or(cur, cond)
+	}
 }
